@@ -117,9 +117,9 @@ def step (st : St) (ws : List String) : St × String × String × String :=
     match paramsOf ps, (parse (" ".intercalate sx)).bind stmtOf with
     | some params, some stmt =>
       let trig := UFindings.triggers small params st.g st.names stmt
-      let (specOut, specG) := match Spec.apply small params st.g st.next stmt with
+      let (specOut, specG) := match Spec.apply small params (Update.live st.g) st.next stmt with
         | .ok (g', _, c) => ("ok " ++ toString c.total, g')
-        | .error e => (errLine e, st.g)
+        | .error e => (errLine e, Update.live st.g)
       match Update.step small params st.g st.next st.names stmt with
       | .ok (g', next', count, names') =>
         ({ st with g := g', next := next', names := names', specG, trig },
